@@ -9,7 +9,8 @@
 // are not in increment order, and a goroutine may be overtaken by tens of thousands of calls between its two
 // steps — the schedule class behind KF-C19-1 (b), reproduced deterministically (theorem C19_conc_dup_descheduled).
 //
-// Answer: distinct|dup:<i>,<j> n=<returned> ctr=<counter> inflight=<goroutines holding a reading> h=<FNV fold of all
+// Answer: distinct|dup:<i>,<j> n=<returned> ctr=<counter> inflight=<goroutines holding a reading> mon=ok|BROKEN (every
+// timestamp inside [tick start, tick of the wall clock], non-decreasing per goroutine) h=<FNV fold of all
 // results in return order> [g:uuid … when n <= 24].
 package main
 
@@ -100,6 +101,14 @@ func sched(c0 uint32, hw []byte, sec, nsec int64, words []string) string {
 	var outs []ret
 	seen := map[gocql.UUID]int{}
 	verdict := "distinct"
+	mon := "ok"
+	lastTs := map[int]int64{}
+	// the RFC 4122 timestamp field, read off the bytes independently of gocql's Timestamp()
+	tsOf := func(u gocql.UUID) int64 {
+		return int64(uint64(u[0])<<24|uint64(u[1])<<16|uint64(u[2])<<8|uint64(u[3])) |
+			int64(uint64(u[4])<<40|uint64(u[5])<<32) | int64(uint64(u[6]&0x0f)<<56|uint64(u[7])<<48)
+	}
+	lo := tick100(time.Unix(sec, nsec))
 	h := uint64(14695981039346656037)
 	do := func(kind byte, g int) {
 		w := worker(g)
@@ -114,6 +123,13 @@ func sched(c0 uint32, hw []byte, sec, nsec int64, words []string) string {
 			}
 			for _, b := range u {
 				h = h*1099511628211 + uint64(b)
+			}
+			// monitors (C19_conc_goroutine_timestamps_monotone): inside [tick start, tick of the wall clock now], and
+			// never below the previous result of the same goroutine
+			if ts := tsOf(*u); ts < lo || ts > tick100(wall()) || ts < lastTs[g] {
+				mon = "BROKEN"
+			} else {
+				lastTs[g] = ts
 			}
 			outs = append(outs, ret{g, *u})
 		}
@@ -167,7 +183,7 @@ func sched(c0 uint32, hw []byte, sec, nsec int64, words []string) string {
 		}
 	}
 	var sb strings.Builder
-	fmt.Fprintf(&sb, "%s n=%d ctr=%d inflight=%d h=%d", verdict, len(outs), gocql.VerifClockSeq(), inflight, h)
+	fmt.Fprintf(&sb, "%s n=%d ctr=%d inflight=%d mon=%s h=%d", verdict, len(outs), gocql.VerifClockSeq(), inflight, mon, h)
 	if len(outs) <= 24 {
 		for _, o := range outs {
 			fmt.Fprintf(&sb, " %d:%s", o.g, vh.Hex(o.u[:]))
@@ -206,7 +222,7 @@ func schedStart(r *vh.Rng) string {
 	case 1:
 		c0 = uint32(0) - uint32(1+r.Intn(40))
 	}
-	sec := timeBase + 1 + int64(r.U64()%uint64(maxSec-timeBase-10))
+	sec := timeBase + 1 + int64(r.U64()%uint64(maxSec-timeBase-100000)) // the whole schedule stays representable
 	if r.Bool() {
 		sec = 1700000000 + int64(r.Intn(1<<26))
 	}
